@@ -15,6 +15,11 @@ func VerifyMerkelProof(txid, root, proof []byte, index uint32) bool {
 	var buf []byte
 
 	nodes := len(proof) / sha256.Size
+	// the position must be inside the tree: higher bits are never consumed below, so without
+	// this check position p and p+2^nodes verify alike (a coinbase presented under 2^nodes)
+	if nodes < 32 && index>>nodes != 0 {
+		return false
+	}
 	if nodes > 0 {
 		buf = make([]byte, sha256.Size*2)
 	}
